@@ -45,11 +45,57 @@ def check_z3(hyps, goal, timeout_ms, want_model=True):
     return "unknown", s.reason_unknown(), dt, s
 
 
+def _symbols(e, cache):
+    """names of the uninterpreted constants / functions occurring in e (quantifier bodies included)"""
+    key = e.get_id()
+    if key in cache:
+        return cache[key]
+    out, seen, stack = set(), set(), [e]
+    while stack:
+        t = stack.pop()
+        if t.get_id() in seen:
+            continue
+        seen.add(t.get_id())
+        if z3.is_quantifier(t):
+            stack.append(t.body())
+            for i in range(t.num_patterns()):
+                stack.append(t.pattern(i))
+            continue
+        if z3.is_app(t):
+            if t.decl().kind() == z3.Z3_OP_UNINTERPRETED:
+                out.add(t.decl().name())
+            stack.extend(t.children())
+    cache[key] = out
+    return out
+
+
+def goal_component(hyps, goal):
+    """the hypotheses connected to the goal through shared uninterpreted symbols (transitively).  The remaining hypotheses have a signature
+    disjoint from goal + kept, so  kept /\ not goal  is satisfiable iff  hyps /\ not goal  is, provided the dropped hypotheses are consistent
+    (they are the same hypotheses the vacuity canary guards)."""
+    cache = {}
+    hs = [h for h in hyps if h is not True and not isinstance(h, bool)]
+    syms = [_symbols(h, cache) for h in hs]
+    reach = set(_symbols(goal, cache))
+    kept = [False] * len(hs)
+    changed = True
+    while changed:
+        changed = False
+        for i, sy in enumerate(syms):
+            if not kept[i] and (sy & reach):
+                kept[i] = True
+                reach |= sy
+                changed = True
+    # hypotheses without any uninterpreted symbol (pure arithmetic facts) are kept as well
+    return [h for i, h in enumerate(hs) if kept[i] or not syms[i]], sum(1 for k_ in kept if not k_)
+
+
 def check_cvc5(solver, timeout_ms):
     """re-check the same query with cvc5 through SMT-LIB text."""
     text = solver.to_smt2()
     # z3 prints (check-sat) at the end; cvc5 needs a logic
-    text = "(set-logic ALL)\n" + text
+    # z3 prints primed names (Ainv') unquoted, which is not a legal SMT-LIB simple symbol
+    text = "(set-logic ALL)\n" + text.replace("'", "_prime")
     with tempfile.NamedTemporaryFile("w", suffix=".smt2", delete=False, dir=os.environ.get("VERIF_OUT", None)) as f:
         f.write(text)
         path = f.name
@@ -89,6 +135,18 @@ def discharge(vc, timeout_ms=20000, use_cvc5=True, cross=False):
                 res.update(status="refuted", backend="cvc5", reason="cvc5: sat")
             else:
                 res["reason"] = f"z3: {info}; cvc5: {info2}"
+        if res["status"] == "unknown":
+            # second attempt on the goal's own symbol-connected component of the hypotheses (sound in both directions, see goal_component)
+            kept, dropped = goal_component(vc.hyps, vc.goal)
+            if dropped:
+                st3, info3, dt3, s3 = check_z3(kept, vc.goal, min(timeout_ms, 20000))
+                res["seconds"] = round(res["seconds"] + dt3, 4)
+                if st3 == "discharged":
+                    res.update(status="discharged", backend="z3", reason=None)
+                elif st3 == "refuted":
+                    res.update(status="refuted", backend="z3", reason=f"counter-model of the goal's symbol-connected component ({dropped} unrelated hypotheses set aside)",
+                               model=_model_dict(info3) if info3 is not None else None)
+                    res["z3model"] = info3
     if cross and status == "discharged":
         st2, info2, dt2 = check_cvc5(s, timeout_ms)
         res["cross"] = st2
